@@ -16,6 +16,7 @@ RULE = ("Hypothesis draws a loss (five built-ins with options, or a user-defined
         "coordinate, coordinate / ensemble permutation invariance, non-negativity, zero at sim == real, ValueError on "
         "wrong-length weights / filters. Non-trivial = D >= 2 with non-uniform weights, or E >= 2 with a non-identity "
         "ensemble permutation, or >= 2 evaluations on one object.")
+RULE = RULE.replace('ValueError on wrong-length weights / filters.', 'ValueError on wrong-length weights / filters, homogeneity in the weights (all weights x 1e-10); data also as unsigned integers (built-in losses) and Fortran-ordered / transposed arrays; weights as int / bool arrays or lists, tiny (1e-12) and huge.')
 ASSUMPTIONS = ["LikelihoodLoss overrides compute_loss, documents that weights are ignored and is joint over coordinates: it is "
                "exempt from weight-linearity and from the wrong-length-weights clause",
                "relations that change the summation order are compared with tolerance 1e-9 * sum|w_i|*max(1,|L_i|)",
@@ -100,6 +101,7 @@ def cases(draw, kind):
 
 
 def check_rel(ctx: Ctx, case):
+    lg._MEMO.clear()     # the memoising calculator starts every case with an empty memory (cases are independent)
     spec = case["loss"]
     kind = spec["kind"]
     sub = f"rel_{kind}"
